@@ -79,7 +79,7 @@ def hnf(draw, maxdet=4):
 def presentations(draw, allow_supercell=True, allow_lefthanded=True, identity_ok=True):
     p = {}
     # each component is drawn as an "omit" decision so that Hypothesis' bias towards minimal values includes it
-    kinds = [k for k in ["shear", "rot", "trans", "perm", "super", "unwrap", "lh"] if draw(st.integers(0, 2)) == 0]
+    kinds = [k for k in ["shear", "rot", "trans", "perm", "super", "unwrap", "lh", "origin"] if draw(st.integers(0, 2)) == 0]
     if not identity_ok and not kinds:
         kinds = ["shear"]
     if "shear" in kinds:
@@ -96,13 +96,21 @@ def presentations(draw, allow_supercell=True, allow_lefthanded=True, identity_ok
         p["unwrap"] = draw(st.integers(0, 2 ** 32 - 1))
     if "lh" in kinds and allow_lefthanded:
         p["lefthanded"] = True
+    if "origin" in kinds:
+        # origin moved by special fractions of the standard cell (1/2, 1/3, 1/4 ...): permutes equivalent Wyckoff sites
+        p["origin12"] = [draw(st.sampled_from([6, 0, 4, 3, 8, 9, 2, 1])) for _ in range(3)]
     return p
 
 
 @st.composite
-def crystal_descs(draw, sgs=None, max_orbits=3, force_letters=None, anchor=None, species=None, salt=0):
+def crystal_descs(draw, sgs=None, max_orbits=3, force_letters=None, anchor=None, species=None, salt=0, only_fixed=False):
     sg = draw(st.integers(1, 230)) if sgs is None else draw(st.sampled_from(list(sgs)))
     ls = letters(sg)
+    if only_fixed:
+        fixed = [l for l in ls if dof(sg, l) == 0]
+        if fixed:
+            ls = fixed
+            anchor = False
     cm = spgref.CENTRING_MULT[spgref.centring(sg)]
     n_orb = draw(st.integers(1, max_orbits)) if not force_letters else len(force_letters)
     orbits = []
@@ -117,8 +125,8 @@ def crystal_descs(draw, sgs=None, max_orbits=3, force_letters=None, anchor=None,
         no_anchor = draw(st.integers(0, 3)) == 3
     else:
         no_anchor = not anchor
-    if not no_anchor and ls[-1] not in picks:
-        picks.append(ls[-1])
+    if not no_anchor and letters(sg)[-1] not in picks:
+        picks.append(letters(sg)[-1])
     if species is not None:
         zs = list(species)[:len(picks)]
     else:
@@ -213,6 +221,8 @@ def apply_presentation(cell, frac, nums, p):
     cell = np.array(cell, float)
     frac = np.array(frac, float)
     nums = np.array(nums, int)
+    if p.get("origin12") is not None:
+        frac = frac + np.array(p["origin12"], float) / 12.0
     if p.get("hnf") is not None:
         H = np.array(p["hnf"], int)
         det = int(round(np.linalg.det(H)))
@@ -253,7 +263,7 @@ def apply_presentation(cell, frac, nums, p):
 
 
 def pres_labels(p):
-    ks = [k for k in ("hnf", "shear", "quat", "trans", "perm", "unwrap", "lefthanded") if p.get(k) is not None]
+    ks = [k for k in ("hnf", "shear", "quat", "trans", "perm", "unwrap", "lefthanded", "origin12") if p.get(k) is not None]
     return ["pres:" + k for k in ks] if ks else ["pres:identity"]
 
 
